@@ -133,7 +133,7 @@ PROPS["C05"] = {
              "{requireClientCert on/off} x carrier {TLS socket, HTTPS websocket, StartTLS over socket / websocket / UDP(KCP) / DNS} (576 cells) plus {equal, different, absent} UDP secrets is "
              "enumerated by run index; per run the upstream is named by host name or IP literal (with a certificate naming exactly that), an unreachable decoy upstream naming another host may be listed first (none / tcp+tls / wss / tcp), and delivery segmentation is sampled; non-trivial = the "
              "cell's outcome matched the admit/reject table; distinct = schedule shapes"),
-    "probes": ["admitted_as_expected", "rejected_as_expected", "admitted_again_after_session_loss", "rejected_again_on_second_attempt", "fault_carrier_reset", "fault_server_restart", "upstreams_without_a_host_part"],
+    "probes": ["admitted_as_expected", "rejected_as_expected", "admitted_again_after_session_loss", "rejected_again_on_second_attempt", "fault_carrier_reset", "fault_server_restart", "upstreams_without_a_host_part", "certificate_files_renewed"],
     "technique": "deterministic simulation: complete authentication matrix under simulated clock (certificate expiry) and network, admit/reject table from the property text, no-application-byte-on-reject oracle",
     "level_text": ("Fault enumeration over the finite authentication matrix, each cell run in a whole-system world with real crypto/tls: admit iff (--insecure or chain+name+validity) and "
                    "(no requirement or client certificate of the server's CA); UDP admits iff secrets equal. On reject no target may accept a connection or receive a byte; on admit a 64-byte exchange must complete."),
